@@ -82,6 +82,10 @@ FIXED = [
   "a logcat line with a multi-byte Unicode white space (U+00A0, U+2003, ...) directly after the time stamp - the regex \\s accepts it - was sliced one byte behind the time stamp ('byte index is not a char boundary'), monotonic and threadtime format", "replays/examples/C03-logcat-unicode-whitespace.json"),
  ("KF-C03-19", "C03", "C03-tags-empty-after-trim", "fix: get_apid_for_tag terminates for a second tag that is empty after trim",
   "two different logcat/generic-log tags that are both empty after trimming ('' and ' ') made get_apid_for_tag propose the apid ' ' in every iteration: endless loop (in builds with overflow checks the u16 iteration counter overflows after 65 535 rounds) while the global tag map is write-locked", "replays/examples/C03-tags-empty-after-trim.json"),
+ ("KF-C01-2", "C01", "C01-index-overflow-at-u32-max", "fix: DltMessageIterator doesn't overflow after a msg with the max index",
+  "with a start index such that the last message of a stream is numbered u32::MAX (e.g. one message, start index u32::MAX) DltMessageIterator panicked with 'attempt to add with overflow' at 'self.index += 1' before returning that message (both framings)", "replays/examples/C01-last-index-u32-max.json"),
+ ("KF-LC-2", "C05", "C05-message-index-near-u32-max", "fix: lifecycle detection doesn't overflow for msg indices close to u32::MAX",
+  "lifecycle detection panicked in the regular-refresh test 'last_regular_refresh_index + 100_000' (attempt to add with overflow) as soon as message indices within 100 000 of u32::MAX had been seen; every later message of the stream was lost (C05, C07 and every pipeline property that runs the stage)", "replays/examples/C05-message-index-near-u32-max.json"),
  ("KF-C18-1", "C18", "C18-payload_from_args-empty-string-or-raw", "fix: payload_from_args writes the length",
   "utils::payload_from_args wrote no u16 length prefix for an empty string/raw argument, so the encoded payload did not decode to the same arguments (a single empty raw value: 4 bytes written, 0 arguments decoded)",
   "replays/examples/C18-payload_from_args-empty-raw.json"),
